@@ -4,6 +4,7 @@ CONSTANTS
   NK = 2
   NST = 2
   NSU = 1
+  EmptyKey = 2
   MaxConn = 2
   MaxOps = 5
   Amounts = {0, 1}
